@@ -155,6 +155,8 @@ def build(spec):
         return tuple(build(v) for v in spec["items"])
     elif g == "inf":
         return float("inf")
+    elif g == "scale_val":
+        return float(spec["v"])
     else:
         raise ValueError(f"unknown generator {g!r}")
     return np.ascontiguousarray(A)
